@@ -164,15 +164,15 @@ def run(chk):
                 problem = ('shape', 'loaded as type %s %dx%dx%d' % (c06.TNAME.get(d['type']), d['rows'], d['cols'], d['nf']))
             else:
                 for q in range(n):
-                    if abs(d['z0'][q] - net['z0'][q]) > 1e-12 * abs(net['z0'][q]):
+                    if not abs(d['z0'][q] - net['z0'][q]) <= 1e-12 * abs(net['z0'][q]):
                         problem = ('z0', 'reference impedance of port %d loaded as %r, ground truth %r' % (q + 1, d['z0'][q], net['z0'][q]))
                 for k, f in enumerate(net['freqs']):
-                    if abs(d['freqs'][k] - f) > 1e-12 * f:
+                    if not abs(d['freqs'][k] - f) <= 1e-12 * f:
                         problem = problem or ('frequency', 'frequency %d loaded as %r, ground truth %r' % (k, d['freqs'][k], f))
                     sc = max(abs(v) for row in net['data'][k] for v in row)
                     for a in range(n):
                         for b in range(n):
-                            if abs(d['data'][k][a][b] - net['data'][k][a][b]) > 1e-9 * sc:
+                            if not abs(d['data'][k][a][b] - net['data'][k][a][b]) <= 1e-9 * sc:
                                 problem = problem or ('value', '%s%d%d at frequency %d loaded as %r, ground truth %r' % (
                                     net['param'].upper(), a + 1, b + 1, k, d['data'][k][a][b], net['data'][k][a][b]))
         if problem:
